@@ -69,6 +69,34 @@ func modeJSON(c *Ctx) {
 	for _, ts := range targets {
 		s := c.Doc.Schema(ts.Schema)
 		kind := oas.Kind(s)
+		// ---------- C07: a union with no alternative set is outside the domain of the
+		// round trip; encoding it may fail, but if bytes come out they must still
+		// be valid for the schema (no null where the schema is not nullable)
+		{
+			gz := &Gen{Rng: c.Rng, Doc: c.Doc}
+			for i := 0; i < 3; i++ {
+				v := gz.Value(ts.Type, s, 0)
+				if isWrapper(ts.Type) && !v.Field(0).Bool() {
+					continue
+				}
+				if !zeroFirstUnion(c.Doc, v, s, 0) {
+					break
+				}
+				c.Stat("zero_union_values", 1)
+				bs, err := marshalValue(v)
+				if err != nil {
+					c.Stat("zero_union_refused", 1)
+					continue
+				}
+				in := fmt.Sprintf("%s: %s (a oneOf union left without alternative)", ts.Name, trunc(dumpValue(v), 300))
+				dv, derr := DecodeJSON(bs)
+				if derr != nil {
+					c.Viol("invalid-json", "encoded output is not valid JSON ["+ts.Name+"]", in, "valid JSON or an error", string(bs))
+				} else if errs := jv.Validate(dv, ts.Schema); len(errs) > 0 {
+					c.Viol("schema-nonconformant", "encoded JSON does not validate against its schema ["+ts.Name+"]: "+stripPath(errs[0]), in, "valid for schema, or an error", map[string]any{"json": string(bs), "errors": errs})
+				}
+			}
+		}
 		// ---------- C06 / C07: values -> JSON -> values
 		g := &Gen{Rng: c.Rng, Doc: c.Doc, Boundary: true, FieldKeys: true}
 		for i := 0; i < nvals; i++ {
@@ -169,7 +197,7 @@ func modeJSON(c *Ctx) {
 				// null is carried by the Nullable wrapper at the referencing site, a bare component type cannot hold it
 				continue
 			}
-			text := EncodeDoc(doc, i%3)
+			text := EncodeDoc(doc, i%4)
 			// the independent generator must agree with the validator (self check of the oracle)
 			if dv, err := DecodeJSON(text); err != nil || len(jv.Validate(dv, ts.Schema)) > 0 {
 				c.Stat("docgen_self_check_failed", 1)
@@ -179,7 +207,8 @@ func modeJSON(c *Ctx) {
 			in := fmt.Sprintf("%s: %s", ts.Name, trunc(string(text), 400))
 			back, err := unmarshalInto(ts.Type, text)
 			if err != nil {
-				c.Viol("valid-doc-rejected", "a schema-valid document failed to decode ["+ts.Name+"]", in, "decodes", err.Error())
+				cls, note := escapedStyle("valid-doc-rejected", i%4 == 3, err)
+				c.Viol(cls, "a schema-valid document failed to decode ["+ts.Name+"]"+note, in, "decodes", err.Error())
 				continue
 			}
 			re, err := marshalValue(back)
@@ -256,12 +285,13 @@ func (c *Ctx) jsonRequestBodies() {
 			continue
 		}
 		path := c.Base + c.canonicalPath(op)
+		nsent := 0
 		for i := 0; i < 12; i++ {
 			doc := dg.Valid(op.Spec.Body.RawSchema, 0)
 			if doc == nil {
 				continue
 			}
-			text := EncodeDoc(doc, i%3)
+			text := EncodeDoc(doc, i%4)
 			if dv, err := DecodeJSON(text); err != nil || len(jv.Validate(dv, op.Spec.Body.RawSchema)) > 0 {
 				continue
 			}
@@ -270,6 +300,12 @@ func (c *Ctx) jsonRequestBodies() {
 				r := NewRequest(op.Method, path, c.canonicalQuery(op), c.canonicalHeaders(op), body)
 				r.Header.Set("Content-Type", "application/json")
 				c.addAllCredentials(r, "good")
+				nsent++
+				if nsent%2 == 0 {
+					// a body of unknown length (chunked transfer): net/http reports -1
+					r.ContentLength = -1
+					r.TransferEncoding = []string{"chunked"}
+				}
 				func() {
 					defer func() {
 						if p := recover(); p != nil {
@@ -286,7 +322,8 @@ func (c *Ctx) jsonRequestBodies() {
 			}
 			c.Stat("body_documents", 1)
 			if !lastOK {
-				c.Viol("valid-body-rejected", "Parse() rejected a request whose JSON body is valid for the schema ["+op.Key+"]", trunc(string(text), 400), "success", fmt.Sprint(lastErr))
+				cls, note := escapedStyle("valid-body-rejected", i%4 == 3, lastErr)
+				c.Viol(cls, "Parse() rejected a request whose JSON body is valid for the schema ["+op.Key+"]"+note, trunc(string(text), 400), "success", fmt.Sprint(lastErr))
 				continue
 			}
 			for _, fm := range dg.Faults(doc, op.Spec.Body.RawSchema) {
@@ -374,4 +411,61 @@ func missingMapKeys(v reflect.Value, doc any) []string {
 	walk(v, 0)
 	sort.Strings(missing)
 	return missing
+}
+
+// zeroFirstUnion resets the first oneOf-typed position found in v (guided by
+// the schema) to its zero value: no alternative set. Reports whether it found one.
+func zeroFirstUnion(doc *oas.Doc, v reflect.Value, s oas.M, depth int) bool {
+	if s == nil || depth > 6 || !v.IsValid() {
+		return false
+	}
+	if isWrapper(v.Type()) {
+		if !v.Field(0).Bool() {
+			return false
+		}
+		return zeroFirstUnion(doc, v.Field(1), s, depth)
+	}
+	switch oas.Kind(s) {
+	case "oneOf":
+		if v.Kind() == reflect.Struct && v.CanSet() {
+			v.Set(reflect.Zero(v.Type()))
+			return true
+		}
+		return false
+	case "array":
+		if v.Kind() != reflect.Slice || v.Len() == 0 {
+			return false
+		}
+		return zeroFirstUnion(doc, v.Index(v.Len()-1), doc.Schema(s["items"]), depth+1)
+	case "object", "allOf":
+		if v.Kind() != reflect.Struct {
+			return false
+		}
+		ov, err := doc.ObjectView(s)
+		if err != nil {
+			return false
+		}
+		for _, pn := range ov.Order {
+			if idx, ok := fieldByNorm(v.Type(), pn); ok && v.Field(idx).CanSet() {
+				if zeroFirstUnion(doc, v.Field(idx), doc.Schema(ov.Props[pn]), depth+1) {
+					return true
+				}
+			}
+		}
+	}
+	return false
+}
+
+// escapedStyle marks failures on documents written in the all-escapes string
+// style (class suffix), and names the one known cause among them: Go's
+// time.Time.UnmarshalJSON parses the raw bytes between the quotes.
+func escapedStyle(class string, escaped bool, err error) (string, string) {
+	if !escaped {
+		return class, ""
+	}
+	note := " (strings written as \\uXXXX escapes)"
+	if err != nil && strings.Contains(err.Error(), "parsing time") && strings.Contains(err.Error(), `\\u00`) {
+		note += " (time.Time does not unescape JSON strings)"
+	}
+	return class + ":escaped-strings", note
 }
